@@ -203,6 +203,9 @@ class GeckoSnapshot:
         with open(file) as f:
             for line in f:
                 if "Snapshot" in line:
+                    # A snapshot taken straight after another one ends the previous one
+                    if snapshot is not None:
+                        snapshots.append(snapshot)
                     snapshot = GeckoSnapshot()
                 if snapshot:
                     if "INFO" in line:
